@@ -1816,6 +1816,21 @@ pub mod verif {
         NodeRecordStore::prepare_record_bytes(r, node(s).encryption_details.clone())
     }
 
+    /// The node's start-up check of `<root>/network_key_version` (driver.rs, run by `build_node`
+    /// before the store is opened); `Err` carries the error text.
+    pub fn check_and_wipe_storage_dir_if_necessary(
+        root_dir: PathBuf,
+        storage_dir_path: PathBuf,
+        cur_version_str: String,
+    ) -> std::result::Result<(), String> {
+        crate::driver::verif_check_and_wipe_storage_dir_if_necessary(
+            root_dir,
+            storage_dir_path,
+            cur_version_str,
+        )
+        .map_err(|e| format!("{e:?}"))
+    }
+
     /// What the store reads out of file content `bytes` found under the name of `k`.
     pub fn value_of_file_bytes(s: &UnifiedRecordStore, k: &Key, bytes: Vec<u8>) -> Option<Vec<u8>> {
         NodeRecordStore::get_record_from_bytes(bytes, k, &node(s).encryption_details)
